@@ -451,6 +451,27 @@ def none_propagation(ctx: Ctx, chk, rule: str) -> None:
         c = calls[0]
         chk.instance(rule)
         vals = I.eval(c.args[2], fr) if len(c.args) >= 3 else frozenset([UNKNOWN])
+        if len(c.args) >= 3 and isinstance(c.args[2], ast.Name) and (UNKNOWN in vals or not vals) and len(I.local_assigns(send).get(c.args[2].id) or []) > 1:
+            # a local with a default and a conditional re-binding (`buf = None` / `if message_buffer: buf = self._buffer`):
+            # the bindings that can reach the call under message_buffer=False
+            from .common import reaching_defs
+
+            gs = _CFG(send.node)
+            at = gs.nodes_where(lambda x: x.contains(c))
+            acc: set = set()
+            for dn in reaching_defs(gs, c.args[2].id, at[0]) if at else []:
+                dead = False
+                for tn in [x for x in gs.nodes if x.kind == "test" and gs.dominates(x, dn)]:
+                    pol = branch_polarity(gs, tn, [dn])
+                    tv = I.truth(tn.ast, fr)
+                    if pol is not None and tv is not None and tv != pol:
+                        dead = True
+                if dead:
+                    continue
+                dv = getattr(dn.ast, "value", None)
+                acc |= set(I.eval(dv, fr)) if dv is not None else {UNKNOWN}
+            if acc:
+                vals = frozenset(acc)
         key = f"{send.fq}::buffer-argument"
         if vals == frozenset([Const(None)]):
             chk.ok(rule, f"{key}@{V}", "message_buffer=False -> the handler receives None", ctx.loc(send, c), sample=V == "1.4")
@@ -460,6 +481,9 @@ def none_propagation(ctx: Ctx, chk, rule: str) -> None:
             if t.kind != "repo" or t.frame is None:
                 continue
             hf = t.frame.func
+            hparams = [p_ for p_ in hf.positional_params if p_ not in ("self", "cls")]
+            if len(c.args) >= 3 and len(hparams) >= 3 and vals and UNKNOWN not in vals:
+                t.frame = t.frame.bind(hparams[2], vals)  # the buffer argument as decided above (path-sensitively)
             for attr in BUFFERS:
                 for st, _k, _v in store_sites(ctx, hf, attr):
                     chk.instance(rule)
